@@ -25,6 +25,13 @@ vars == <<l, models, bad, drift, stats>>
 
 Init == l = 1 /\ models = <<>> /\ bad = {} /\ drift = {} /\ stats = [events |-> 0, unmodelled |-> 0, unspec |-> 0, searches |-> 0]
 
+(* the real token stream (hook VerifTokenize) against the lexer specification: types, values of valued tokens,
+   byte positions and lengths *)
+TokDiffers(spec, real) ==
+  \/ Len(spec) # Len(real)
+  \/ \E i \in 1..Len(spec) : \/ spec[i][1] # real[i][1] \/ spec[i][3] # real[i][3] \/ spec[i][4] # real[i][4]
+                               \/ (spec[i][1] \in {"uid", "qid", "number", "jsonlit", "strlit"} /\ spec[i][2] # real[i][2])
+
 IsEvent(op) == l <= Len(Trace) /\ Trace[l].op = op /\ l' = l + 1
 
 TraceCompile ==
@@ -39,6 +46,8 @@ TraceCompile ==
                             ELSE IF m[1] = "panic" THEN {[line |-> l, why |-> "spec-panic", allowed |-> "?"]}
                             ELSE {})
         /\ drift' = drift \cup (IF m[1] = "ok" /\ real /\ ev.ast # <<>> /\ AstFromJ(ev.ast) # m[2] THEN {[line |-> l, why |-> "ast"]} ELSE {})
+                          \cup (LET lx == Lex(ev.text) IN
+                                IF ev.toks # <<>> /\ lx[1] = "ok" /\ TokDiffers(lx[2], ev.toks) THEN {[line |-> l, why |-> "tokens"]} ELSE {})
                           \cup (IF m[1] = "err" /\ ~real /\ ev.offset >= 0 /\ m[3] >= 0 /\ ev.offset # m[3] THEN {[line |-> l, why |-> "offset"]} ELSE {})
         /\ stats' = [stats EXCEPT !.events = @ + 1, !.unmodelled = @ + (IF m[1] = "unmodelled" THEN 1 ELSE 0)]
 
